@@ -796,20 +796,38 @@ func c09All(c *Check, P string, r *RouterRoles2) {
 		}
 	}
 	c17ForwarderMiddlewares(c, P+".O3")
-	// registration records: struct literals with IsRouterLevel / HandlerName
+	// registration records: struct literals of the record type; a field the literal leaves out has its zero value
 	nrec := 0
+	handlerLevelFns := map[*ssa.Function]bool{}
 	for _, fn := range r.Funcs {
-		for _, stv := range FieldStoresByName(fn, "IsRouterLevel") {
-			nrec++
-			cst, isC := stv.Val.(*ssa.Const)
-			if !isC || cst.Value == nil {
-				c.Undecided(P+".O1", "REGISTRATION-LEVEL", fn, stv.Pos(), "IsRouterLevel", "non-constant level flag")
+		for _, hst := range FieldStoresByName(fn, "Handler") {
+			if hst.Val.Type().String() != msgPkg+".HandlerMiddleware" {
 				continue
 			}
-			router := cst.Value.String() == "true"
+			_, base := FieldOf(hst.Addr)
+			if base == nil {
+				continue
+			}
+			nrec++
+			router, okLevel := false, true
+			pos := hst.Pos()
+			for _, s2 := range FieldStoresByName(fn, "IsRouterLevel") {
+				if _, b2 := FieldOf(s2.Addr); b2 == base {
+					pos = s2.Pos()
+					cst, isC := s2.Val.(*ssa.Const)
+					if !isC || cst.Value == nil {
+						okLevel = false
+					} else {
+						router = cst.Value.String() == "true"
+					}
+				}
+			}
+			if !okLevel {
+				c.Undecided(P+".O1", "REGISTRATION-LEVEL", fn, pos, "IsRouterLevel", "non-constant level flag")
+				continue
+			}
 			// the name stored next to it
 			var nameVal ssa.Value
-			_, base := FieldOf(stv.Addr)
 			for _, s2 := range FieldStoresByName(fn, "HandlerName") {
 				if _, b2 := FieldOf(s2.Addr); b2 == base {
 					nameVal = s2.Val
@@ -817,10 +835,11 @@ func c09All(c *Check, P string, r *RouterRoles2) {
 			}
 			if router {
 				s, isS := ConstString(nameVal)
-				c.Report(nameVal == nil || (isS && s == ""), P+".O1", "REGISTRATION-LEVEL", fn, stv.Pos(), "router-level record", "router-level middlewares are recorded with IsRouterLevel=true and no handler name")
+				c.Report(nameVal == nil || (isS && s == ""), P+".O1", "REGISTRATION-LEVEL", fn, pos, "router-level record", "router-level middlewares are recorded with IsRouterLevel=true and no handler name")
 			} else {
+				handlerLevelFns[fn] = true
 				okN := nameVal != nil && AllOrigins(nameVal, func(o ssa.Value) bool { p, ok := o.(*ssa.Parameter); return ok && p.Type().String() == "string" })
-				c.Report(okN, P+".O1", "REGISTRATION-LEVEL", fn, stv.Pos(), "handler-level record", "handler-level middlewares are recorded with IsRouterLevel=false and the given handler name")
+				c.Report(okN, P+".O1", "REGISTRATION-LEVEL", fn, pos, "handler-level record", "handler-level middlewares are recorded with IsRouterLevel=false and the given handler name")
 			}
 		}
 	}
@@ -890,7 +909,7 @@ func c09All(c *Check, P string, r *RouterRoles2) {
 			ok := false
 			for _, cl := range CallsIn(am) {
 				cal := CalleeFn(cl.Common())
-				if cal == nil || cal.Pkg != am.Pkg || len(FieldStoresByName(cal, "IsRouterLevel")) == 0 {
+				if cal == nil || cal.Pkg != am.Pkg || !handlerLevelFns[cal] {
 					continue
 				}
 				for _, a := range cl.Common().Args {
@@ -975,7 +994,34 @@ func c09All(c *Check, P string, r *RouterRoles2) {
 					okL = len(held) > 0
 				}
 			}
-			c.Report(okL, P+".O4", "SNAPSHOT-LOCKED", app.Parent(), app.Pos(), "snapshot", "the copy is taken with a router lock held", "held: "+held.String())
+			// … the one the locked registrations hold: a registration that takes a lock and a snapshot that takes another
+			// one do not exclude each other
+			for _, fn := range r.Funcs {
+				for _, stv := range FieldStores(fn, mwF) {
+					if allocatesNamed(fn, r.R) {
+						continue
+					}
+					wl := []string{}
+					for lid, m := range r.LA.Held(stv) {
+						if m == 'W' {
+							wl = append(wl, lid)
+						}
+					}
+					if len(wl) == 0 {
+						continue // an unlocked registration: see the note MIDDLEWARE-APPEND-LOCKED
+					}
+					common := false
+					for _, lid := range wl {
+						if _, has := held[lid]; has {
+							common = true
+						}
+					}
+					if !common {
+						okL = false
+					}
+				}
+			}
+			c.Report(okL, P+".O4", "SNAPSHOT-LOCKED", app.Parent(), app.Pos(), "snapshot", "the copy is taken with the lock held under which handler-level registrations extend the list", "held: "+held.String())
 		}
 	}
 	// decoration happens once per handler: in RunHandlers the functions that replace the handler's publisher / subscriber
@@ -1082,6 +1128,8 @@ func runC10(c *Check) {
 		return
 	}
 	c10Lifecycle(c, P, r)
+	// a handler that ends (Stop, Close, last message) closes its publisher and, through the watcher, its subscriber
+	c06ClosesPubSub(c, P+".S", r)
 }
 
 // c10Lifecycle holds the lifecycle obligations of C10; C06 (graceful Close:
@@ -1119,6 +1167,17 @@ func c10RouterSafety(c *Check, P string, r *RouterRoles2) {
 		})
 	}
 	c.Report(true, P+".O5", "PANICS-SCANNED", nil, token.NoPos, "package scan", fmt.Sprintf("%d explicit panics in package message examined", np))
+	// no two router locks are taken in both orders, also when the second one is taken by a method called in place
+	// (IsClosed() under the handlers lock against Close, which takes the closed lock first)
+	es := la.LockOrderThroughCalls()
+	conf := OrderConflicts(es)
+	for _, p := range conf {
+		c.Report(false, P+".O5", "ROUTER-LOCK-ORDER", p[0].Site.Parent(), p[0].Site.Pos(), "acquire "+p[0].To+" while holding "+p[0].From,
+			"two locks of package message are acquired in both orders (deadlock when the two paths interleave)",
+			fmt.Sprintf("%s: %s held, %s acquired", c.P.Pos(p[0].Site.Pos()), p[0].From, p[0].To),
+			fmt.Sprintf("%s: %s held, %s acquired", c.P.Pos(p[1].Site.Pos()), p[1].From, p[1].To))
+	}
+	c.Report(len(conf) == 0, P+".O5", "ROUTER-LOCK-ORDER-ACYCLIC", r.Close, r.Close.Pos(), "package lock order", fmt.Sprintf("%d nested lock acquisitions examined (also one call deep); no pair of locks is taken in both orders", len(es)))
 	// the started flag of a handler is only ever raised (Stop and Stopped rely on it after the handler ended, too)
 	for _, fn := range r.Funcs {
 		for _, st := range FieldStores(fn, r.HStarted) {
@@ -1213,8 +1272,33 @@ func c10RouterSafety(c *Check, P string, r *RouterRoles2) {
 	}
 }
 
+// c10CloseSignals: whoever waits on the router's signals (Run, the handlers' close watchers, Close's other callers) is
+// released by the first Close, whatever state the router is in: unless the router was closed already, every return of
+// Close lies behind the raising of the closing signal and has the closed signal raised (in place or deferred).
+func c10CloseSignals(c *Check, P string, r *RouterRoles2) {
+	Cl := r.Close
+	alreadyClosed, _ := BoolEdges(Cl, func(v ssa.Value) bool { return AllOrigins(v, IsFieldLoad(r.ClosedF)) })
+	for _, sg := range []struct {
+		f    *types.Var
+		what string
+	}{{r.ClosingCh, "closing signal"}, {r.ClosedCh, "closed signal"}} {
+		if sg.f == nil {
+			continue
+		}
+		sites := CloseSites(Cl, func(v ssa.Value) bool { return AllOrigins(v, IsFieldLoad(sg.f)) })
+		if !c.Floor(P+".O5", "close("+sg.what+") in Router.Close", len(sites), 1) {
+			continue
+		}
+		re := ReachEntry(Cl, NewCut().AddInstrs(instrsOf(sites)...).AddEdges(alreadyClosed...))
+		for i, ret := range Returns(Cl) {
+			c.Report(!re[ret], P+".O5", "CLOSE-RAISES-ITS-SIGNALS", Cl, ret.Pos(), fmt.Sprintf("Close return#%d vs %s", i, sg.what), "unless the router was already closed, Close does not return without the "+sg.what+" raised (or its raising deferred): a Run that starts later, or waits already, is released")
+		}
+	}
+}
+
 func c10Lifecycle(c *Check, P string, r *RouterRoles2) {
 	c10RouterSafety(c, P, r)
+	c10CloseSignals(c, P, r)
 	Run, RH := r.Run, r.RunHandlers
 	// O1
 	rhCalls := Callers([]*ssa.Function{Run}, RH)
